@@ -31,6 +31,8 @@ def wf_jobs(prop, tier, rules=None, cell=(2024, 2), lift=True, timeout=None, ext
     keep = set()
     cap = PER_RULE_QUICK.get(prop, 4) if tier == "quick" else 10 ** 6
     for r, keys in per_rule.items():
+        if r == "ruleTimeDuration" and tier == "quick":
+            keys = [k for k in keys if "POD" not in k][:2] or keys[:2]     # exact end-date contract: C08
         if len(keys) <= cap:
             keep |= set(keys)
         else:
@@ -60,7 +62,7 @@ def wf_jobs(prop, tier, rules=None, cell=(2024, 2), lift=True, timeout=None, ext
             years = [2024] if tier == "quick" else [2023, 2024]
             spec["years"] = years
             spec["ym"] = [[2024, 2]] if tier == "quick" else [[2023, 2], [2023, 12], [2024, 2], [2024, 3]]
-            spec["maxdur"] = 40 if tier == "quick" else 120
+            spec["maxdur"] = 12 if tier == "quick" else 120
         npod = sum(str(a[1]).count("POD") for a in ob["args"])
         if npod >= 2:
             spec["pods"] = mp
@@ -70,6 +72,8 @@ def wf_jobs(prop, tier, rules=None, cell=(2024, 2), lift=True, timeout=None, ext
         if name in TS_RULES and prop in ("C01", "C02"):
             # rules that read the reference time: more year-month cells (after a leap day, year end)
             variants = [(dict(spec, _cell=c), "/ts%d-%02d" % c) for c in ([(2024, 2), (2024, 3)] if tier == "quick" else [(2024, 2), (2024, 3), (2023, 12), (2023, 2), (2024, 12), (2028, 6)])]
+            if name == "ruleLatentDOY" and tier == "quick":
+                variants = [(dict(v, ts_days="first"), sfx) for v, sfx in variants]   # exact contract over whole months: C04
         if name == "ruleTimeDuration" and prop in ("C15", "C12"):
             spec["maxdur"] = 3          # the frame clause does not depend on the amount
         elif name == "ruleTimeDuration":
